@@ -87,6 +87,10 @@ func (a *an) callFn(caller *ssa.Function, ph int, site ssa.Instruction, f *ssa.F
 		return
 	}
 	a.edgesCG[[2]string{fnName(caller), fnName(f)}] = true
+	if a.callersOf[f] == nil {
+		a.callersOf[f] = map[*ssa.Function]bool{}
+	}
+	a.callersOf[f][caller] = true // caller == nil: a root
 	if caller != nil && ph < 2 && isCtor(f) {
 		ph = a.ctxPhase(ph, caller)
 	}
@@ -201,6 +205,12 @@ func (a *an) unknownCall(caller *ssa.Function, ph int, name string, args []*nd, 
 	if sig != nil {
 		for i := 0; i < sig.Results().Len(); i++ {
 			if tracked(sig.Results().At(i).Type()) {
+				if isServe(ph) && requestScopedResult[name] {
+					// net/http contract: the header map a response writer hands out is that writer's own — while serving,
+					// the writers in play are the requests' own (EXTREQ) and flamego's per-request wrappers around them
+					a.add(res(i), loc{o: a.extReq})
+					continue
+				}
 				a.add(res(i), loc{o: a.extFor(ph)})
 			}
 		}
@@ -209,6 +219,9 @@ func (a *an) unknownCall(caller *ssa.Function, ph int, name string, args []*nd, 
 		a.extCalls = append(a.extCalls, extCallRec{name, caller, args})
 	}
 }
+
+// library calls whose result belongs to the request being served (see unknownCall)
+var requestScopedResult = map[string]bool{"invoke http.ResponseWriter.Header": true}
 
 func calleeName(f *ssa.Function) string {
 	s := f.String()
